@@ -9,6 +9,7 @@ import (
 	"fmt"
 	"path/filepath"
 	"reflect"
+	"strings"
 
 	"verifharness/pkg/gqlgen"
 	"verifharness/pkg/vh"
@@ -275,7 +276,7 @@ func main() {
 			runs = append(runs, gqlgen.CoqRun(0, 1, nil, obsP))
 		}
 		// the gateway's reading of the query: what graphql.Parse hands over, for the model's to_fed
-		view := "None"
+		view := "(@None (list Federation.Normalize.node))"
 		if wf {
 			if t, ok := gqlgen.ParsedView(b, text, q.Vars); ok {
 				view = "(Some " + t + ")"
@@ -284,11 +285,11 @@ func main() {
 		}
 		// Flatten on the parsed query, walked along the schema the way the executor walks it (malformed
 		// directives included: Flatten's refusal must be the model's)
-		flat := "None"
+		flat := "(@None (option (list ftree)))"
 		if t, ok := gqlgen.FlatView(b, text, q.Vars); ok {
 			flat = "(Some " + t + ")"
 			run.Hist("flatten-tree-compared")
-			if t == "None" {
+			if strings.HasPrefix(t, "(@None") {
 				run.Hist("flatten-refuses(malformed directive reached)")
 			}
 		}
